@@ -555,3 +555,36 @@ clientid_eq = REG.unit(Unit(
     canaries=[("never-returns", "False")],
 ))
 clientid_eq.absent_ok = ("identity-equality", "ClientID defines no __eq__: object.__eq__ compares identities, so two connections are never the same registry key")
+
+
+# ---------------------------------------------------------------------------------------------------- notify_other_processes (C20)
+# whatever event a worker accepted and broadcast locally is also announced to the other workers (when the notifier is configured):
+# exactly one notify(event) task, for every kind of event -- the decision what to do with an id belongs to the receiving worker
+class _NotifierObj:
+    def __pyvc_getattr__(self, sx, attr, st, node):
+        if attr == "notify":
+            def nf(sx2, a, k, s, n):
+                s.ghost["announce_calls"] = Val(V.Int, s.ghost["announce_calls"].term + 1)
+                s.ghost["announced_this_event"] = Val(V.Bool, sx2.eq(a[0], sx2.lookup("event", s), s))
+                return [R(s, Conc("coroutine:notifier.notify"))]
+            return [R(st, Func(nf, "notifier.notify"))]
+        raise Unsupported("notifier.%s" % attr, node)
+
+
+REG.classes["BaseStorageN"] = {"log": lambda sx, st, name: LOGGER, "notifier": lambda sx, st, name: Conc(_NotifierObj()), "_notify_sub_tasks": TASKS}
+
+
+def ghost_announce(sx, st):
+    st.ghost["announce_calls"] = V.mk_int(0)
+    st.ghost["announced_this_event"] = V.mk_bool(False)
+    st.ghost["tasks_created"] = V.mk_int(0)
+
+
+REG.unit(Unit(
+    P, "BaseStorage.notify_other_processes",
+    Contract("BaseStorage.notify_other_processes", {"self": V.ObjT("BaseStorageN"), "event": EVENT},
+             ensures=[("every-event-is-announced-once", "ghost('announce_calls') == 1 and ghost('announced_this_event') and ghost('tasks_created') == 1")],
+             raises={}),
+    props=["C20"], ghost_init=ghost_announce,
+    canaries=[("never-returns", "False")],
+))
